@@ -1,9 +1,67 @@
-import ModVerif.Drv.Util
-namespace ModVerif.Drv.Dirhash
-open ModVerif ModVerif.Drv
+/-
+  Line-protocol ops for sumdb/dirhash (prefix `dirhash.`).  No logic: decode, call the model, encode.
 
-/-- stub: no ops modelled yet -/
+    sort <names>                                  sort.Strings on a copy
+    clean <path>                                  filepath.Clean (Unix)
+    join <a> <b>                                  filepath.Join(a, b) (Unix)
+    summary <names> <contents>                    bytes written to the outer hash by Hash1, or err
+    hash1 <names> <contents>                      Hash1; `open` = first pair with the name; a name
+                                                  without a content (contents list shorter) fails to open
+    dirfiles <missing|file|dir> <prefix> <rels>   DirFiles
+    hashdir <missing|file|dir> <prefix> <rels> <contents>   HashDir with Hash1
+    hashzip <names> <contents>                    HashZip with Hash1 on the archive with these entries, in order
+    sha256 <bytes>                                the executable SHA-256 the driver links
+-/
+import ModVerif.Drv.Util
+import ModVerif.Basic.Sha256
+import ModVerif.Model.Dirhash
+namespace ModVerif.Drv.Dirhash
+open ModVerif ModVerif.Drv ModVerif.Dirhash
+
+def showErr : Err → String
+  | .newline => "err:newline"
+  | .openFail => "err:open"
+  | .notDir => "err:notdir"
+  | .walk => "err:walk"
+
+def showRes : Except Err Bytes → String
+  | .ok b => xh b
+  | .error e => showErr e
+
+def showResList : Except Err (List Bytes) → String
+  | .ok l => xhList l
+  | .error e => showErr e
+
+def parseRoot (kind : String) (files : List (Bytes × Bytes)) : Option Root :=
+  if kind == "missing" then some .missing
+  else if kind == "file" then some .file
+  else if kind == "dir" then some (.dir files)
+  else none
+
+def sha : Bytes → Bytes := Sha256.sha256
+
 def handle : Handler
+  | "sort", [l] => do let l ← hxList l; pure (xhList (sortStrings l))
+  | "clean", [p] => do let p ← hx p; pure (xh (clean p))
+  | "join", [a, b] => do let a ← hx a; let b ← hx b; pure (xh (joinPath a b))
+  | "summary", [ns, cs] => do
+      let ns ← hxList ns; let cs ← hxList cs
+      pure (showRes (summary sha ns (openPairs (ns.zip cs))))
+  | "hash1", [ns, cs] => do
+      let ns ← hxList ns; let cs ← hxList cs
+      pure (showRes (hash1 sha ns (openPairs (ns.zip cs))))
+  | "dirfiles", [kind, pfx, rels] => do
+      let pfx ← hx pfx; let rels ← hxList rels
+      let root ← parseRoot kind (rels.map fun r => (r, []))
+      pure (showResList (dirFiles root pfx))
+  | "hashdir", [kind, pfx, rels, cs] => do
+      let pfx ← hx pfx; let rels ← hxList rels; let cs ← hxList cs
+      let root ← parseRoot kind (rels.zip cs)
+      pure (showRes (hashDir sha root pfx))
+  | "hashzip", [ns, cs] => do
+      let ns ← hxList ns; let cs ← hxList cs
+      pure (showRes (hashZip sha (ns.zip cs)))
+  | "sha256", [b] => do let b ← hx b; pure (xh (sha b))
   | _, _ => none
 
 end ModVerif.Drv.Dirhash
